@@ -422,3 +422,54 @@ Definition rename_fun (vs : list nat) : nat -> ty :=
 
 Definition canon (t : ty) : ty :=
   let t' := sort_rows t in tsubst (rename_fun (dedup [] (ftv t'))) t'.
+
+(* ---------- declarative typing ---------- *)
+
+(* Equality of types up to the order of record fields. *)
+Inductive teq : ty -> ty -> Prop :=
+| teq_refl t : teq t t
+| teq_sym t u : teq t u -> teq u t
+| teq_trans t u v : teq t u -> teq u v -> teq t v
+| teq_fun a a' b b' : teq a a' -> teq b b' -> teq (TFun a b) (TFun a' b')
+| teq_array a a' : teq a a' -> teq (TArray a) (TArray a')
+| teq_cons l a a' r r' : teq a a' -> teq r r' -> teq (RCons l a r) (RCons l a' r')
+| teq_swap l l' a a' r : l <> l' -> teq (RCons l a (RCons l' a' r)) (RCons l' a' (RCons l a r)).
+
+(* Declarative environments bind a variable either to a type (lambda-bound) or to the
+   expression of its `let` (let-bound).  A let-bound variable has every type its definition has in
+   the environment of the definition, which is the rest of the list: this is the Hindley-Milner
+   let rule in its "re-type the definition at every use" form, equivalent to generalisation and
+   free of type schemes. *)
+Inductive dbind := DMono (t : ty) | DPoly (e : expr).
+Definition denv := list (nat * dbind).
+
+(* [cv = true]: record types are equal up to field order (rule T_Conv);
+   [cv = false]: types are compared syntactically, a projection reads the first field of the row. *)
+Inductive has_type_gen (cv : bool) : denv -> expr -> ty -> Prop :=
+| T_Int D : has_type_gen cv D EInt tint
+| T_Str D : has_type_gen cv D EStr tstring
+| T_VarMono D x t : has_type_gen cv ((x, DMono t) :: D) (EVar x) t
+| T_VarPoly D x e t : has_type_gen cv D e t -> has_type_gen cv ((x, DPoly e) :: D) (EVar x) t
+| T_VarSkip D x y b t : x <> y -> has_type_gen cv D (EVar x) t -> has_type_gen cv ((y, b) :: D) (EVar x) t
+| T_Lam D x e a b : has_type_gen cv ((x, DMono a) :: D) e b -> has_type_gen cv D (ELam x e) (TFun a b)
+| T_App D e1 e2 a b : has_type_gen cv D e1 (TFun a b) -> has_type_gen cv D e2 a -> has_type_gen cv D (EApp e1 e2) b
+| T_Let D x e1 e2 t1 t2 :
+    has_type_gen cv D e1 t1 -> has_type_gen cv ((x, DPoly e1) :: D) e2 t2 -> has_type_gen cv D (ELet x e1 e2) t2
+| T_Fix D f x e a b :
+    has_type_gen cv ((x, DMono a) :: (f, DMono (TFun a b)) :: D) e b -> has_type_gen cv D (EFix f x e) (TFun a b)
+| T_If D c e1 e2 t :
+    has_type_gen cv D c tbool -> has_type_gen cv D e1 t -> has_type_gen cv D e2 t -> has_type_gen cv D (EIf c e1 e2) t
+| T_Eq D e1 e2 : has_type_gen cv D e1 tint -> has_type_gen cv D e2 tint -> has_type_gen cv D (EEq e1 e2) tbool
+| T_FNil D : has_type_gen cv D EFNil RNil
+| T_FCons D l e fs t r :
+    is_fields fs = true -> has_label l fs = false ->
+    has_type_gen cv D e t -> has_type_gen cv D fs r -> has_type_gen cv D (EFCons l e fs) (RCons l t r)
+| T_Proj D e l t r : has_type_gen cv D e (RCons l t r) -> has_type_gen cv D (EProj e l) t
+| T_ANil D t : has_type_gen cv D EANil (TArray t)
+| T_ACons D e es t :
+    is_elems es = true ->
+    has_type_gen cv D e t -> has_type_gen cv D es (TArray t) -> has_type_gen cv D (EACons e es) (TArray t)
+| T_Conv D e t t' : cv = true -> teq t t' -> has_type_gen cv D e t -> has_type_gen cv D e t'.
+
+Definition has_type := has_type_gen true.
+Definition has_type_syn := has_type_gen false.
